@@ -65,9 +65,27 @@ def _big_csv(rng):
             ("note", "str", [rng.choice(texts + [None]) for _ in range(n)])]
     return {"fmt": "csv", "suffix": rng.choice(["", "", ".gz"]), "opts": rng.choice([{}, {"sep": ";"}]), "spec": spec, "big": True}
 
+def _big_json(rng):
+    """Size-dependent reader paths: > 1000 rows, the first missing value of a column far from the top (as after a sort, which puts missing values last)."""
+    n = rng.choice([1200, 2500, 5200])
+    late = rng.choice([1001, 1100, n - 3])
+    flag = [rng.choice([True, False]) for _ in range(n)]
+    name = [rng.choice(["abc", "x y", "ünï", "q"]) for _ in range(n)]
+    val = [rng.choice([0.5, 1.25, -3.0]) for _ in range(n)]
+    for i in range(late, n):
+        if rng.random() < 0.5: flag[i] = None
+        if rng.random() < 0.5: name[i] = None
+        if rng.random() < 0.5: val[i] = None
+    flag[late] = None; name[late] = None
+    spec = [("id", "int", list(range(n))), ("flag", "obool", flag), ("name", "str", name), ("val", "float", val)]
+    return {"fmt": "json", "suffix": rng.choice(["", "", ".gz"]), "opts": {}, "spec": spec, "big": True}
+
 def generate(rng, tier):
-    if rng.random() < 0.014:
+    r0_ = rng.random()
+    if r0_ < 0.014:
         return _big_csv(rng)
+    if r0_ < 0.024:
+        return _big_json(rng)
     fmt = rng.choice(FORMATS)
     suffix = rng.choice(["", "", ".gz", ".bz2", ".xz"])
     case = {"fmt": fmt, "suffix": suffix, "opts": {}}
@@ -92,6 +110,8 @@ def generate(rng, tier):
         case["opts"]["compression"] = rng.choice(["snappy", "gzip", "none", "zstd"])
     if fmt.startswith("lod-"):
         keys = rng.sample(["a", "b", "c", "d", "e"], rng.randint(1, 4))
+        if rng.random() < 0.06:
+            keys = [rng.choice([" a", "a "] if enc in ("latin-1", "cp1252") else ["\ufeffid", "\u200bname", " a", "a ", "\ufeffid"])] + keys      # a first key that begins / ends with a character text tools like to strip
         items = []
         for i in range(n):
             if fmt == "lod-csv":
